@@ -16,11 +16,11 @@ func init() {
 				"C09.attrib (wire signatures carry no validator; the validator is filled from the event creator's repertoire entry only; frame events do not feed the signature pool), " +
 				"C09.anchor (anchor raised only under len(Signatures) > TrustCount() of the block round's set — strict — and a monotone index; writers of AnchorBlock), " +
 				"C09.verify (Block.Verify yields true only through the ECDSA check of this signature over the body hash — no shortcut), C09.sign (signBlock only from commit, after the application answered without error, after the state hash / receipts were stored into the block, only if the node belongs to the block's set; Block.Sign signs Body.Hash()). " +
-				"NOT decided: that the anchor offered after a fast-forward carries only verified signatures (Reset stores the received block as is; the anchor is nil after a reset until a locally verified one replaces it)."},
+				"C09.reset (a block received by fast-forward is stored with a signature map rebuilt from the signatures that passed the membership test and Block.Verify — the responder's extra entries are not recorded). NOT decided: signature validity as a value-level statement (that is ECDSA)."},
 		Rules: []ruleFunc{c09record, c09attrib, c09anchor, c09sign, func(p *Prog, r *Report) {
 			r.Rule("C09.verify", 1, "Block.Verify returns true only through keys.Verify over Body.Hash() with the signer's key and this signature")
 			verifyProvenance(p, r, "C09.verify", []string{"Block"})
-		}},
+		}, c09reset},
 	})
 }
 
@@ -96,9 +96,15 @@ func c09record(p *Prog, r *Report) {
 	r.Check(path == nil, rule, "SetSignature:callers", p.pos(target.Pos()), fnName(target), "every call path passes ProcessSigPool or core.signBlock", "SetSignature reachable otherwise: "+strings.Join(path, " -> "))
 	// writers of Block.Signatures
 	fSig := p.Field(HG, "Block", "Signatures")
+	// core.fastForward may replace the map of a received block by the filtered one (shape checked by C09.reset)
 	allowed := map[string]bool{"NewBlock": true, "SetSignature": true}
 	var bad []string
 	for _, w := range p.writersOf(fSig) {
+		if w.Fn.Name() == "fastForward" && recvNamedSig(w.Fn) == "core" && w.Kind == "store" {
+			if flowsFrom(w.Val, func(x ssa.Value) bool { _, ok := x.(*ssa.MakeMap); return ok }) {
+				continue
+			}
+		}
 		if !allowed[w.Fn.Name()] {
 			bad = append(bad, fnName(w.Fn)+"@"+p.ipos(w.Instr))
 		}
@@ -397,4 +403,95 @@ func c09sign(p *Prog, r *Report) {
 	for _, c := range callsIn(bs, named(KEYS+".Sign")) {
 		r.Check(depOnCall(argN(c, 1), named(HG+".BlockBody.Hash")), rule, "Block.Sign:digest<-Body.Hash", p.ipos(c), fnName(bs), "signature is over the body hash (incl. state hash)", "Block.Sign does not sign Body.Hash()")
 	}
+}
+
+
+// C09.reset: the block adopted by fast-forward is the one case where a whole signature map
+// arrives from the network. Before hg.Reset stores it, the map must be replaced by one that is
+// filled only under the membership test and Block.Verify==true.
+func c09reset(p *Prog, r *Report) {
+	const rule = "C09.reset"
+	r.Rule(rule, 1, "core.fastForward replaces the received block's signature map by the verified member signatures before hg.Reset stores the block")
+	fn := p.Func(NODE, "core", "fastForward")
+	if fn == nil {
+		r.Anchor(rule, "node.(*core).fastForward")
+		return
+	}
+	fSig := p.Field(HG, "Block", "Signatures")
+	resets := callsIn(fn, named(HG+".Hashgraph.Reset"))
+	if len(resets) == 0 {
+		r.Fail(rule, "fastForward:Reset", p.pos(fn.Pos()), fnName(fn), "no hg.Reset call")
+		return
+	}
+	// candidate functions: fastForward itself and module functions it calls with the block before Reset
+	cands := []*ssa.Function{fn}
+	for _, b := range fn.Blocks {
+		for _, in := range b.Instrs {
+			if c, ok := in.(*ssa.Call); ok {
+				if sf := c.Call.StaticCallee(); sf != nil && inModule(sf) && len(sf.Blocks) > 0 {
+					for _, a := range c.Call.Args {
+						if depOnParamType(a, "Block") && dominates(c, resets[0]) {
+							cands = append(cands, sf)
+						}
+					}
+				}
+			}
+		}
+	}
+	ok := false
+	detail := "hg.Reset stores the block with the signature map exactly as the responder sent it: entries that do not verify, or whose signer is not a validator of the block's round, are recorded on the node's own copy of the block (confirmed: 3 valid + 2 garbage entries in, 5 recorded) and later served in its own fast-forward answers"
+	for _, f := range cands {
+		for _, w := range p.writersOf(fSig) {
+			if w.Fn != f || w.Kind != "store" {
+				continue
+			}
+			mk, isMk := unwrap(w.Val).(*ssa.MakeMap)
+			if !isMk {
+				// value loaded from a local holding a MakeMap
+				flowsFrom(w.Val, func(x ssa.Value) bool {
+					if m, ok := x.(*ssa.MakeMap); ok {
+						mk, isMk = m, true
+						return true
+					}
+					return false
+				})
+			}
+			if !isMk {
+				continue
+			}
+			if f == fn && !dominates(w.Instr, resets[0]) {
+				continue
+			}
+			// every update of that map is guarded
+			n, good := 0, true
+			for _, b := range f.Blocks {
+				for _, in := range b.Instrs {
+					mu, isMu := in.(*ssa.MapUpdate)
+					if !isMu || unwrap(mu.Map) != ssa.Value(mk) {
+						continue
+					}
+					n++
+					qMember := p.lift(func(l Lit) bool {
+						lk, present, ok := lookupLit(l)
+						if !ok || !present {
+							return false
+						}
+						fv, _ := fieldOf(lk.X)
+						return fv != nil && fv.Name() == "ByPubKey" && depOnCall(lk.Index, fullKeyIdent)
+					}, 1)
+					qVerify := p.lift(func(l Lit) bool { return resultLit(l, named(HG+".Block.Verify"), 0, true, nil) }, 1)
+					g1, _ := p.allPaths(mu, []Pred{qMember}, all(1))
+					g2, _ := p.allPaths(mu, []Pred{qVerify}, all(1))
+					if !g1 || !g2 {
+						good = false
+						detail = "the rebuilt signature map is filled without the membership test or without Block.Verify==true"
+					}
+				}
+			}
+			if n > 0 && good {
+				ok = true
+			}
+		}
+	}
+	r.Check(ok, rule, "fastForward:signatures-filtered-before-Reset", p.ipos(resets[0]), fnName(fn), "only verified member signatures are recorded on the adopted block", detail)
 }
